@@ -243,7 +243,9 @@ def render_tm(V, t, srcs, style, paths):
     classes = list(t.get('classes', []))
     poms = [dict(p) for p in t.get('poms', [])]
     sgraphs = list(t.get('sgraphs', []))
-    if style.cls == 'pom':
+    # graph maps moved from the subject map to the predicate-object maps are equivalent only if the class statements
+    # are explicit predicate-object maps too (rr:class statements live in the subject map's graphs)
+    if style.cls == 'pom' or (style.sgraph == 'pom' and sgraphs):
         for c in classes:
             poms.append({'preds': [{'k': 'const', 'v': RDF_TYPE, 'ck': 'iri', 'tt': ''}],
                          'objs': [{'m': {'k': 'const', 'v': c, 'ck': 'iri', 'tt': ''}}], 'graphs': []})
